@@ -5,7 +5,9 @@ LEVEL = "proof"
 TITLE = "Accepted mail is stored exactly once per accepted recipient, and only then"
 LEVEL_TEXT = ("Coq theorems over the SMTP session + Deliver model, for every configuration and every sequence of input items: "
               "the deliveries made equal what the dialogue alone entitles (delivery_exact), only a DATA block answered 250 adds "
-              "anything, one message per accepted storable recipient, no other mailbox changes; tied to the code by a byte-level "
+              "anything, one message per accepted storable recipient, no other mailbox changes; carried to the abstract store of C07 and "
+              "through its two refinement theorems to both back-end models (store_holds_what_dialogue_entitles, "
+              "both_backends_agree_on_deliveries); tied to the code by a byte-level "
               "correspondence check of whole SMTP dialogues against real sessions on both real stores, with the `entitled` "
               "specification evaluated on the implementation's own replies and store contents as the oracle")
 LEVEL_NOTE = ("Coq kernel; extraction (ExtrOcamlBasic); the MAIL argument patterns run as the RE2 programs Go compiles them to (regenerated from the source by pins, "
